@@ -904,6 +904,31 @@ def _fmtw(w):
 
 
 # ----------------------------------------------------------------------------------------------------- R-DOM
+def _fold_returns(events):
+    """`if c: return inf` followed by `return v` is `return (c ? inf : v)`: a pair of return events whose paths differ in the polarity of their last
+    condition only is folded into one conditional return (the shape the rules read the final over-threshold conversion from)."""
+    from ..ir import canon_cond
+    INF = ('num', float('inf'))
+    evs = list(events)
+    rets = [e for e in evs if e[0] == 'return' and e[2] is not None]
+    for a in rets:
+        if a[2] != INF or not a[1]:
+            continue
+        for b in rets:
+            if b is a or len(b[1]) != len(a[1]) or tuple(b[1][:-1]) != tuple(a[1][:-1]) or b[2] == INF:
+                continue
+            ca, cb = a[1][-1], b[1][-1]
+            if canon_cond(('un', 'not', ca)) == cb or canon_cond(('un', 'not', cb)) == ca:
+                folded = ('return', tuple(a[1][:-1]), ('cond', ca, INF, b[2])) + tuple(b[3:])
+                out = []
+                for e in evs:
+                    if e is a:
+                        continue
+                    out.append(folded if e is b else e)
+                return _fold_returns(out)
+    return evs
+
+
 def _calls(e):
     return [(dotted(x[1]) or '', x) for x in walk_expr(e) if x[0] == 'call']
 
@@ -983,7 +1008,7 @@ def rule_dom_c(ctx, F):
             ctx.check(is_nd == ('_ndim' in F.name), 'R-VAR', F.file, F.name, 'pruning bound dimensionality %s' % nm,
                       '%s uses %s: dimensionality mismatch' % (F.name, nm), F.inner_line)
     # returns
-    for ev in F.epilogue.events + F.prologue.events:
+    for ev in _fold_returns(F.epilogue.events) + F.prologue.events:
         if ev[0] != 'return' or ev[2] is None:
             continue
         val = ev[2]
@@ -1079,7 +1104,7 @@ def rule_dom_py(ctx, m, F):
                   'accumulated costs are in the internal domain; the %s used with them must be the converted settings value (adj_%s), found %s'
                   % (nm, nm, fmt(e)[:100]), F.inner_line)
     taint = tainted_settings_attrs(m)
-    for ev in F.epilogue.events + F.prologue.events:
+    for ev in _fold_returns(F.epilogue.events) + F.prologue.events:
         if ev[0] != 'return' or ev[2] is None:
             continue
         val = ev[2]
